@@ -164,7 +164,7 @@ impl <T: ArrayElement> ArrayAxis<T> for Array<T> {
         where F: FnMut(&Self) -> Result<Array<S>, ArrayError> {
         self.axis_in_bounds(axis)?;
         let parts = self.get_shape()?.remove_at(axis).into_iter().product();
-        let array = self.moveaxis(vec![axis.to_isize()], vec![self.ndim()?.to_isize()])?;
+        let array = self.moveaxis(vec![axis.to_isize()], vec![(self.ndim()? - 1).to_isize()])?;
         let partial = array
             .ravel()
             .split(parts, None)?.into_iter()
@@ -210,6 +210,11 @@ impl <T: ArrayElement> ArrayAxis<T> for Array<T> {
         let axes = axes.map(|axes| axes.iter()
             .map(|i| self.normalize_axis(*i))
             .collect::<Vec<usize>>());
+        if let Some(axes) = &axes {
+            axes.len().is_equal(&self.shape.len())?;
+            if axes.iter().any(|&ax| ax >= self.shape.len()) { return Err(ArrayError::AxisOutOfBounds) }
+            axes.is_unique()?;
+        }
         let mut new_elements = vec![T::zero(); self.elements.len()];
         let new_shape: Vec<usize> = axes.clone().map_or_else(
             || self.shape.clone().into_iter().rev().collect(),
@@ -232,6 +237,8 @@ impl <T: ArrayElement> ArrayAxis<T> for Array<T> {
         let destination = destination.iter().map(|i| self.normalize_axis(*i)).collect::<Vec<usize>>();
         source.is_unique()?;
         destination.is_unique()?;
+        let ndim = self.ndim()?;
+        if source.iter().chain(destination.iter()).any(|&ax| ax >= ndim) { return Err(ArrayError::AxisOutOfBounds) }
 
         let mut order = (0..self.ndim()?)
             .filter(|f| !source.contains(f))
@@ -248,6 +255,8 @@ impl <T: ArrayElement> ArrayAxis<T> for Array<T> {
     fn rollaxis(&self, axis: isize, start: Option<isize>) -> Result<Self, ArrayError> {
         let axis = self.normalize_axis(axis);
         let start = start.map_or(0, |ax| self.normalize_axis(ax));
+        self.axis_in_bounds(axis)?;
+        self.axis_in_bounds(start)?;
 
         let mut new_axes = (0..self.ndim()?).collect::<Vec<usize>>();
         let axis_to_move = new_axes.remove(axis);
@@ -259,6 +268,8 @@ impl <T: ArrayElement> ArrayAxis<T> for Array<T> {
     fn swapaxes(&self, axis_1: isize, axis_2: isize) -> Result<Self, ArrayError> {
         let axis_1 = self.normalize_axis(axis_1);
         let axis_2 = self.normalize_axis(axis_2);
+        self.axis_in_bounds(axis_1)?;
+        self.axis_in_bounds(axis_2)?;
 
         let new_axes = (0..self.ndim()?)
             .collect::<Vec<usize>>()
@@ -274,20 +285,26 @@ impl <T: ArrayElement> ArrayAxis<T> for Array<T> {
             .collect::<Vec<usize>>();
         let mut new_shape = self.get_shape()?;
 
-        for item in axes { new_shape.insert(item, 1) }
+        for item in axes {
+            if item > new_shape.len() { return Err(ArrayError::AxisOutOfBounds) }
+            new_shape.insert(item, 1);
+        }
         self.reshape(&new_shape)
     }
 
     fn squeeze(&self, axes: Option<Vec<isize>>) -> Result<Self, ArrayError> {
         if let Some(axes) = axes {
-            let axes = axes.iter()
+            let mut axes = axes.iter()
                 .map(|&i| self.normalize_axis(i))
                 .sorted()
                 .rev()
                 .collect::<Vec<usize>>();
+            axes.dedup();
             let mut new_shape = self.get_shape()?;
 
-            if axes.iter().any(|a| new_shape[*a] != 1) {
+            if axes.iter().any(|a| *a >= new_shape.len()) {
+                Err(ArrayError::AxisOutOfBounds)
+            } else if axes.iter().any(|a| new_shape[*a] != 1) {
                 Err(ArrayError::SqueezeShapeOfAxisMustBeOne)
             } else {
                 for item in axes { new_shape.remove(item); }
